@@ -38,12 +38,12 @@ PROPS = {
         "min_runs": {"quick": 40, "thorough": 1000},
     },
     "C05": {
-        "harnesses": {"c05_streams": 0.5, "c05_checkpoint": 0.5},
+        "harnesses": {"c05_streams": 0.4, "c05_checkpoint": 0.45, "c05_streams.guard": 0.15},
         "budget_s": {"quick": 50, "thorough": 900},
         "min_runs": {"quick": 200, "thorough": 5000},
     },
     "C11": {
-        "harnesses": {"c11_mesh": 0.8, "c11_pmap": 0.2},
+        "harnesses": {"c11_mesh": 0.55, "c11_pmap": 0.15, "c11_mesh.guard": 0.2, "c11_pmap.guard": 0.1},
         "budget_s": {"quick": 50, "thorough": 900},
         "min_runs": {"quick": 200, "thorough": 5000},
     },
@@ -304,7 +304,7 @@ def main():
     os.makedirs(REPLAYS, exist_ok=True)
     os.makedirs(EVID, exist_ok=True)
 
-    harnesses = {h: w for h, w in P["harnesses"].items() if os.path.exists(os.path.join(VERIF, "harness", h + ".cpp"))}
+    harnesses = {h: w for h, w in P["harnesses"].items() if os.path.exists(os.path.join(VERIF, "harness", h.split(".")[0] + ".cpp"))}
     if a.harness:
         harnesses = {a.harness: 1.0}
     if not a.no_build:
